@@ -27,6 +27,8 @@ pub struct Cfg {
     pub trkz: bool,
     /// programs may read the registered constants of the harness runtime (`host::host_consts`)
     pub host_consts: bool,
+    /// record fields and enum payloads may be of type `()` (zero-sized components)
+    pub unit_fields: bool,
     /// each registered constant is visible with probability host_consts_in_3 / 3
     pub host_consts_in_3: u64,
     /// script constants may own drop-tracked values (only the differential families, whose
@@ -82,6 +84,7 @@ impl Cfg {
             trk: false,
             trkz: false,
             host_consts: true,
+            unit_fields: false,
             host_consts_in_3: 1,
             trk_consts: false,
             fns: (1, 5),
@@ -112,6 +115,7 @@ impl Cfg {
             trk: true,
             trkz: true,
             host_consts: true,
+            unit_fields: false,
             host_consts_in_3: 1,
             trk_consts: false,
             fns: (1, 4),
@@ -138,6 +142,7 @@ impl Cfg {
             trk: true,
             trkz: true,
             host_consts: true,
+            unit_fields: false,
             host_consts_in_3: 1,
             trk_consts: false,
             fns: (1, 4),
@@ -332,6 +337,9 @@ impl Gen {
                         1 if g.cfg.lists => Ty::list(t),
                         _ => t,
                     }
+                } else if g.cfg.unit_fields && g.rng.chance(1, 10) {
+                    g.tag("decl:unit-component".into());
+                    Ty::Unit
                 } else {
                     g.value_ty(2)
                 }
